@@ -247,6 +247,14 @@ func (g *Gen) evalIdent(ctx *specCtx, name string) Val {
 		}
 		g.unsupported("unknown identifier " + name + " in callee contract")
 	}
+	if g.freeVarNames[name] {
+		// captured variable: the closure holds a pointer to it; contracts name the variable itself
+		if pv, ok := g.paramVals[name].(PtrV); ok {
+			if _, isLocal := g.localNames[name]; !isLocal {
+				return g.specLoad(ctx, pv)
+			}
+		}
+	}
 	if ctx.entryNames || ctx.paramsEntry {
 		if v, ok := g.paramVals[name]; ok {
 			return v
@@ -525,6 +533,9 @@ func (g *Gen) evalCall(ctx *specCtx, x *ECall) Val {
 		if a, ok := v.(ArrV); ok {
 			return IntV{fmt.Sprint(a.N)}
 		}
+		if r, ok := v.(RefV); ok {
+			return IntV{g.mapLen(ctx.st, r.T)}
+		}
 		g.unsupported("len of " + fmt.Sprintf("%T", v))
 	case "cap":
 		if s, ok := arg(0).(SliceV); ok {
@@ -725,10 +736,16 @@ func (g *Gen) evalCall(ctx *specCtx, x *ECall) Val {
 				ts = append(ts, y.T)
 				sorts = append(sorts, "Int")
 			case SliceV:
-				// a slice argument stands for its contents: (block, offset, length)
-				blk, so, l := g.seqBlock(ctx, y)
-				ts = append(ts, blk, so, l)
-				sorts = append(sorts, "(Array Int Int)", "Int", "Int")
+				if len(g.leaves(y.Elem)) == 1 {
+					// a slice of scalars stands for its contents: (block, offset, length)
+					blk, so, l := g.seqBlock(ctx, y)
+					ts = append(ts, blk, so, l)
+					sorts = append(sorts, "(Array Int Int)", "Int", "Int")
+				} else {
+					// other slices are identified by their view (block id, offset, length)
+					ts = append(ts, y.Ref, y.Off, y.Len)
+					sorts = append(sorts, "Int", "Int", "Int")
+				}
 			default:
 				g.unsupported("argument of uninterpreted function")
 			}
